@@ -7,6 +7,7 @@ The direct oracle evaluates the clauses of the property on the implementation's 
 (order-independent, so a change of row order alone does not make the oracle fail).
 """
 import itertools
+import json
 from collections import Counter
 
 from harness.core import fl, nl, bl, ll, pl
@@ -23,12 +24,18 @@ TRUSTED = [
     "hand-written model Model/Doe.v tied to doe.py / operators.py by this correspondence run (numpy arrays are lists of rows; "
     "scipy toeplitz/hankel, np.roll, itertools.product, np.frexp power-of-two test are modelled by their definitions)",
     "the Box-Behnken in-place slice assignments H[4(Index-1):4 Index, i] = H_fact[:, 0] are modelled functionally (one block of four rows per pair, in loop order)",
+    "the harness plays the user in the histories (one shared parameter list / Problem, generator objects reused, bounds edited, returned "
+    "vectors overwritten) and keeps its own immutable record of the bounds and level lists the model is evaluated on",
     "level values are binary64 floats compared bit for bit; the mid level (l_b + u_b) / 2 and list.sort() of three levels are evaluated with PrimFloat in the driver Run/C13Run.v",
 ]
 ASSUMPTIONS = [
     "parameter names are distinct (the Generator classes key a dict by name)",
     "level values are non-NaN floats; |bounds| small enough that (l_b + u_b) does not overflow",
     "fullfact for zero factors raises TypeError in the code (np.prod([]) is a float); the theorems are stated for >= 1 factor",
+    "histories: the bounds / level lists 'given' to a run are the ones the problem holds when generate() is called (the Generator classes "
+    "keep a reference to the parameter list and read it at generate() time; init(values) hands over the level lists); a user edit of a "
+    "bound between two runs therefore changes what the later run is compared with; vectors returned by generate() belong to the caller, "
+    "who may overwrite them",
     "the generalized-subset-design theorems are conditional on build_gsd not raising (level counts >= 2, reduction >= 2); "
     "C13_gsd_succeeds shows it does not raise for >= 2 factors when the reduction does not exceed any level count",
 ]
@@ -104,13 +111,23 @@ def run(ctx):
     def call(f):
         try:
             return f(), None
-        except (AssertionError, ValueError, TypeError, IndexError, ZeroDivisionError) as e:
+        except Exception as e:      # kinds the model does not know (KeyError, ...) get code 9 and so differ from the model
             return None, type(e).__name__
 
     def to_rows(out):
         return [[float(x) for x in r] for r in out]
 
+    pushed = {}
+
     def push(kind, case, exp, m, key, nontrivial=True):
+        # a (case, observed) pair that is literally the one already sent to Coq has the same verdict: it is counted, not
+        # re-evaluated (the runs of a history on one problem are all compared with the model on the same original bounds)
+        if (case, exp) in pushed:
+            kinds[kind] += 1
+            kinds["identical_to_an_earlier_comparison"] += 1
+            ctx.count((kind,) + key, nontrivial=nontrivial)
+            return
+        pushed[(case, exp)] = len(cases)
         cases.append(case)
         expected.append(exp)
         meta.append(m)
@@ -170,20 +187,9 @@ def run(ctx):
              nontrivial=len(rows) > 1)
 
     # ---- Plackett-Burman ------------------------------------------------------------------
-    def do_pb(bounds):
+    def oracle_pb(bounds, rows, inp):
+        """the clauses of the property, on the implementation's output, against the user's bounds"""
         n = len(bounds)
-        g = ops.PlackettBurmanGenerator(parameters=params_of(bounds))
-        out, e = call(g.generate)
-        inp = {"generator": "PlackettBurmanGenerator", "bounds": [list(b) for b in bounds]}
-        case = "CPB %s" % ll(bounds, lambda b: pl(fl(b[0]), fl(b[1])))
-        if e is not None:
-            errors[e] += 1
-            if 1 <= n <= 23:
-                fail("PlackettBurmanGenerator raised %s for the supported size %d" % (e, n), inp, "pb")
-            push("pb", case, "OErr %s" % nl(ERR.get(e, 9)), dict(inp, kind="pb", error=e, n=n), (tuple(bounds),), nontrivial=False)
-            return
-        rows = to_rows(out)
-        # the clauses of the property, on the implementation's output
         runs = 4 * (n // 4 + 1)
         problems = []
         if len(rows) != runs:
@@ -194,7 +200,8 @@ def run(ctx):
             for j, (lb, ub) in enumerate(bounds):
                 col = [r[j] for r in rows]
                 if any(x != lb and x != ub for x in col):
-                    problems.append("column %d uses a value other than its two bounds" % j)
+                    problems.append("column %d uses the value %r, which is neither of its two bounds [%r, %r]"
+                                    % (j, [x for x in col if x != lb and x != ub][0], lb, ub))
                     break
             distinct = [j for j, (lb, ub) in enumerate(bounds) if lb != ub]
             sign = {j: [1 if r[j] == bounds[j][1] else -1 for r in rows] for j in distinct}
@@ -209,10 +216,44 @@ def run(ctx):
                     break
         if problems:
             fail("Plackett-Burman design for %d factors: %s" % (n, "; ".join(problems)), inp, "pb")
+
+    def do_pb(bounds):
+        n = len(bounds)
+        g = ops.PlackettBurmanGenerator(parameters=params_of(bounds))
+        out, e = call(g.generate)
+        inp = {"generator": "PlackettBurmanGenerator", "bounds": [list(b) for b in bounds]}
+        case = "CPB %s" % ll(bounds, lambda b: pl(fl(b[0]), fl(b[1])))
+        if e is not None:
+            errors[e] += 1
+            if 1 <= n <= 23:
+                fail("PlackettBurmanGenerator raised %s for the supported size %d" % (e, n), inp, "pb")
+            push("pb", case, "OErr %s" % nl(ERR.get(e, 9)), dict(inp, kind="pb", error=e, n=n), (tuple(bounds),), nontrivial=False)
+            return
+        rows = to_rows(out)
+        oracle_pb(bounds, rows, inp)
         sizes["pb:%d" % n] += 1
         push("pb", case, rows_lit(rows), dict(inp, kind="pb", rows=len(rows), n=n), (tuple(bounds),))
 
     # ---- Box-Behnken ----------------------------------------------------------------------
+    def oracle_bb(bounds, rows, inp):
+        n = len(bounds)
+        if n < 3:
+            return
+        mid = [(lb + ub) / 2 for lb, ub in bounds]
+        want = Counter()
+        for i, j in itertools.combinations(range(n), 2):
+            for a in bounds[i]:
+                for b in bounds[j]:
+                    r = list(mid)
+                    r[i], r[j] = a, b
+                    want[tuple(r)] += 1
+        want[tuple(mid)] += 1
+        got = Counter(tuple(r) for r in rows)
+        if got != want:
+            fail("Box-Behnken design for %d factors is not the +/- corners of every factor pair plus one centre run: "
+                 "%d rows (expected %d), missing %r, surplus %r"
+                 % (n, len(rows), sum(want.values()), list((want - got).keys())[:2], list((got - want).keys())[:2]), inp, "bb")
+
     def do_bb(bounds):
         n = len(bounds)
         g = ops.BoxBehnkenGenerator(parameters=params_of(bounds))
@@ -226,21 +267,7 @@ def run(ctx):
             push("bb", case, "OErr %s" % nl(ERR.get(e, 9)), dict(inp, kind="bb", error=e, n=n), (tuple(bounds),), nontrivial=False)
             return
         rows = to_rows(out)
-        if n >= 3:
-            mid = [(lb + ub) / 2 for lb, ub in bounds]
-            want = Counter()
-            for i, j in itertools.combinations(range(n), 2):
-                for a in bounds[i]:
-                    for b in bounds[j]:
-                        r = list(mid)
-                        r[i], r[j] = a, b
-                        want[tuple(r)] += 1
-            want[tuple(mid)] += 1
-            got = Counter(tuple(r) for r in rows)
-            if got != want:
-                fail("Box-Behnken design for %d factors is not the +/- corners of every factor pair plus one centre run: "
-                     "%d rows (expected %d), missing %r, surplus %r"
-                     % (n, len(rows), sum(want.values()), list((want - got).keys())[:2], list((got - want).keys())[:2]), inp, "bb")
+        oracle_bb(bounds, rows, inp)
         sizes["bb:%d" % n] += 1
         push("bb", case, rows_lit(rows), dict(inp, kind="bb", rows=len(rows), n=n), (tuple(bounds),))
 
@@ -264,11 +291,15 @@ def run(ctx):
             fail("the %d complementary designs do not cover the full factorial: %d of %d runs, e.g. %r missing"
                  % (reduction, len(seen), len(full), sorted(full - seen)[:2]), inp, kind)
 
-    def do_gsd(levels, reduction, n):
-        out, e = call(lambda: doe.build_gsd([int(x) for x in levels], int(reduction), int(n)))
+    def do_gsd(levels, reduction, n, shared=None, hist=None):
+        """shared: the caller's own list object handed to build_gsd (a history on one list); levels is the harness's record"""
+        arg = [int(x) for x in levels] if shared is None else shared
+        out, e = call(lambda: doe.build_gsd(arg, int(reduction), int(n)))
         inp = {"function": "build_gsd", "levels": list(levels), "reduction": reduction, "n": n}
+        if hist is not None:
+            inp.update(hist)
         case = "CGSD %s %s %s" % (ll(levels, nl), nl(reduction), nl(n))
-        key = (tuple(levels), reduction, n)
+        key = (tuple(levels), reduction, n) + ((json.dumps(hist, sort_keys=True),) if hist is not None else ())
         if e is not None:
             errors[e] += 1
             push("gsd", case, "OErr %s" % nl(ERR.get(e, 9)), dict(inp, kind="gsd", error=e), key, nontrivial=False)
@@ -285,6 +316,13 @@ def run(ctx):
         sizes["gsd:%d" % len(levels)] += 1
         push("gsd", case, designs_lit(designs), dict(inp, kind="gsd", rows=sum(len(d) for d in designs)), key)
 
+    def oracle_gsd_gen(values, rows, inp):
+        got = Counter(tuple(r) for r in rows)
+        want = Counter(itertools.product(*values))
+        if got - want:
+            fail("GSDGenerator returns a run that is not in the full factorial (or more often than there): %r" % (list((got - want).keys())[:2],),
+                 inp, "gsd_gen")
+
     def do_gsd_gen(values, reduction):
         g = ops.GSDGenerator(parameters=[{"name": "U_%d" % i} for i in range(len(values))])
         g.init([list(v) for v in values], reduction=reduction)
@@ -297,11 +335,7 @@ def run(ctx):
             push("gsd_gen", case, "OErr %s" % nl(ERR.get(e, 9)), dict(inp, kind="gsd_gen", error=e), key, nontrivial=False)
             return
         rows = to_rows(out)
-        got = Counter(tuple(r) for r in rows)
-        want = Counter(itertools.product(*values))
-        if got - want:
-            fail("GSDGenerator returns a run that is not in the full factorial (or more often than there): %r" % (list((got - want).keys())[:2],),
-                 inp, "gsd_gen")
+        oracle_gsd_gen(values, rows, inp)
         sizes["gsd_gen:%d" % len(values)] += 1
         push("gsd_gen", case, rows_lit(rows), dict(inp, kind="gsd_gen", rows=len(rows)), key)
 
@@ -371,13 +405,467 @@ def run(ctx):
         values = gen_levels(rng, k, 6, cap)
         do_gsd_gen(values, rng.choice([2, 2, 3, 3, 4, 5]))
 
+    # =========================================================================================
+    # histories: several generator runs on ONE shared parameter list / one Problem
+    # =========================================================================================
+    # The user's bounds / level lists are recorded by the harness as tuples that never reach artap (`ref_*`); the
+    # generators get one shared mutable parameter list (and one shared list of level lists), as `problem.parameters`
+    # is in normal use.  Every run of a history is compared with the model evaluated on the ORIGINAL bounds / levels
+    # (the model is a function of immutable inputs: a run cannot influence a later one there), the direct oracle
+    # evaluates the property clauses against the original bounds, and the purity oracle requires the shared
+    # structures to be bit-identical before and after every generate().
+    import atexit
+    import logging
+    import shutil
+    from artap.problem import Problem
+    logging.disable(logging.CRITICAL)
+
+    class DoeProblem(Problem):
+        def set(self, **kwargs):
+            self.name = "c13"
+            self.parameters = kwargs["parameters"]
+            self.costs = [{"name": "F", "criteria": "minimize"}]
+
+        def evaluate(self, individual):
+            return [0.0]
+
+    hstat = Counter()
+    adjacent = set()
+
+    def snap(o):
+        """bit-exact and type-exact description of a user-owned structure"""
+        t = type(o)
+        if t is float:
+            return ("float", o.hex())
+        if t is bool or t is int or t is str or o is None:
+            return (t.__name__, o)
+        if t is list or t is tuple:
+            return (t.__name__, [snap(x) for x in o])
+        if t is dict:
+            return ("dict", [(snap(k), snap(v)) for k, v in o.items()])
+        return ("%s.%s" % (t.__module__, t.__name__), repr(o))
+
+    def unsnap(s):
+        if s[0] == "float":
+            return float.fromhex(s[1])
+        if s[0] in ("list", "tuple"):
+            return [unsnap(x) for x in s[1]]
+        if s[0] == "dict":
+            return {str(unsnap(k)): unsnap(v) for k, v in s[1]}
+        return s[1]
+
+    def snap_diff(a, b, path):
+        """None when the snapshots agree, else a description of the first difference"""
+        if a == b:
+            return None
+        if a[0] == b[0] and a[0] in ("list", "tuple") and len(a[1]) == len(b[1]):
+            for i, (x, y) in enumerate(zip(a[1], b[1])):
+                d = snap_diff(x, y, "%s[%d]" % (path, i))
+                if d:
+                    return d
+        if a[0] == b[0] == "dict" and [k for k, _ in a[1]] == [k for k, _ in b[1]]:
+            for (k, x), (_, y) in zip(a[1], b[1]):
+                d = snap_diff(x, y, "%s[%r]" % (path, unsnap(k)))
+                if d:
+                    return d
+        ta, tb = (a[0], b[0]) if a[0] != b[0] else ("", "")
+        return "%s was %s%r and is now %s%r" % (path, ta and ta + " ", unsnap(a), tb and tb + " ", unsnap(b))
+
+    def out_snap(out):
+        try:
+            return [[float(x).hex() for x in r] for r in out]
+        except Exception as e:
+            return "unreadable: %r" % (e,)
+
+    def bounds_lit(bounds):
+        return ll(bounds, lambda b: pl(fl(b[0]), fl(b[1])))
+
+    GEN_CLASS = {"full": "FullFactorGenerator", "full_levels": "FullFactorLevelsGenerator", "pb": "PlackettBurmanGenerator",
+                 "bb": "BoxBehnkenGenerator", "gsd_gen": "GSDGenerator"}
+
+    def run_session(tag, bounds, values, steps, use_problem=False):
+        ref_bounds = [(float(b[0]), float(b[1])) for b in bounds]          # the harness's record of what the user wrote down
+        ref_values = [tuple(float(x) for x in v) for v in values]
+        params = params_of(ref_bounds)                                       # the ONE parameter list of the session
+        problem = None
+        if use_problem:
+            problem = DoeProblem(parameters=params)
+            params = problem.parameters
+            hstat["sessions on a real Problem (generators built from problem.parameters)"] += 1
+        user_values = [list(v) for v in ref_values]                         # the ONE list of level lists of the session
+        values_version = 0
+        pool = {}             # generator class -> (object, configuration the user gave it last)
+        history = []
+        kept = []             # designs returned earlier which the user left alone: (object, snapshot, step)
+        prev = None
+        hstat["sessions"] += 1
+        hstat["sessions:%s" % tag] += 1
+        ngen = 0
+        try:
+            for idx, st in enumerate(steps):
+                op = st["op"]
+                history.append(st)
+                if op == "set_bounds":                                       # the user changes a bound of the problem
+                    i = st["index"] % max(len(params), 1)
+                    if not params:
+                        continue
+                    lo, hi = float(st["bounds"][0]), float(st["bounds"][1])
+                    if st["how"] == "rebind":
+                        params[i]["bounds"] = [lo, hi]
+                    else:
+                        params[i]["bounds"][0] = lo
+                        params[i]["bounds"][1] = hi
+                    ref_bounds[i] = (lo, hi)
+                    hstat["user edits of a bound between runs"] += 1
+                    continue
+                if op == "set_values":                                       # the user supplies new level lists
+                    ref_values = [tuple(float(x) for x in v) for v in st["values"]]
+                    user_values = [list(v) for v in ref_values]
+                    values_version += 1
+                    hstat["user replaces the level lists between runs"] += 1
+                    continue
+                cls = GEN_CLASS[op]
+                entry = pool.get(cls) if st.get("reuse") else None
+                if entry is None:
+                    g, cfg = getattr(ops, cls)(parameters=params), None
+                else:
+                    g, cfg = entry
+                    hstat["runs on a generator object used before"] += 1
+                n = len(ref_bounds)
+                if op == "full":
+                    want = ("center", bool(st["center"]))
+                    if cfg != want or st.get("reinit"):
+                        g.init(bool(st["center"]))
+                elif op == "full_levels":
+                    want = ("values", values_version)
+                    if cfg != want or st.get("reinit"):
+                        g.init(user_values)
+                elif op == "gsd_gen":
+                    want = ("values", values_version, st["reduction"])
+                    if cfg != want or st.get("reinit"):
+                        g.init(user_values, reduction=st["reduction"])
+                else:
+                    want = None
+                if entry is not None and cfg == want and not st.get("reinit"):
+                    hstat["runs repeated without init() in between"] += 1
+                pool[cls] = (g, want)
+
+                before_p, before_v = snap(params), snap(user_values)
+                out, e = call(g.generate)
+                after_p, after_v = snap(params), snap(user_values)
+                ngen += 1
+                hstat["generator runs"] += 1
+                if prev is not None:
+                    adjacent.add((prev, op if op != "full" else "full(center=%s)" % st["center"]))
+                    hstat["runs after at least one other run on the same parameters"] += 1
+                prev = op if op != "full" else "full(center=%s)" % st["center"]
+
+                inp = {"generator": cls, "history": [dict(h) for h in history], "step": idx,
+                       "shared": "problem.parameters of one Problem" if problem is not None else "one parameter list",
+                       "bounds": [list(b) for b in ref_bounds]}
+                if op in ("full_levels", "gsd_gen"):
+                    inp["values"] = [list(v) for v in ref_values]
+                hkey = (tag, json.dumps(history, sort_keys=True), tuple(ref_bounds), tuple(ref_values))
+
+                # ---- purity oracle
+                hstat["purity checks"] += 1
+                d = snap_diff(before_p, after_p, "parameters")
+                if d:
+                    fail("%s.generate() modified the problem's parameters: %s; every later design for this problem is built from "
+                         "the modified values" % (cls, d), inp, "purity")
+                d = snap_diff(before_v, after_v, "values")
+                if d:
+                    fail("%s.generate() modified the level lists the user passed to init(): %s" % (cls, d), inp, "purity")
+                if problem is not None and problem.parameters is not params:
+                    fail("%s.generate() replaced problem.parameters" % cls, inp, "purity")
+                for item in list(kept):
+                    if out_snap(item[0]) != item[1]:
+                        kept.remove(item)
+                        fail("the design returned by step %d of the history was modified by the run of step %d (%s)"
+                             % (item[2], idx, cls), inp, "purity")
+
+                # ---- correspondence with the model on the original bounds / levels, and the property clauses on them
+                if op == "full":
+                    center = bool(st["center"])
+                    case = "CFull %s %s" % (bl(center), bounds_lit(ref_bounds))
+                    must = n >= 1
+                    levels = [[b[0], (b[0] + b[1]) / 2.0, b[1]] if center else [b[0], b[1]] for b in ref_bounds]
+                    okind, orc = "fullfact", (lambda rows: oracle_full(levels, rows, inp))
+                elif op == "full_levels":
+                    case = "CFullLevels %s %s" % (ll(ref_values, lambda v: ll(v, fl)), nl(n))
+                    used = [list(v) for v in ref_values[:n]]
+                    must = len(used) >= 1
+                    okind, orc = "fullfact_levels", (lambda rows: oracle_full(used, rows, inp))
+                elif op == "pb":
+                    case = "CPB %s" % bounds_lit(ref_bounds)
+                    must = 1 <= n <= 23
+                    okind, orc = "pb", (lambda rows: oracle_pb(ref_bounds, rows, inp))
+                elif op == "bb":
+                    case = "CBB %s" % bounds_lit(ref_bounds)
+                    must = n >= 3
+                    okind, orc = "bb", (lambda rows: oracle_bb(ref_bounds, rows, inp))
+                else:
+                    case = "CGSDGen %s %s" % (ll(ref_values, lambda v: ll(v, fl)), nl(st["reduction"]))
+                    must = False
+                    okind, orc = "gsd_gen", (lambda rows: oracle_gsd_gen([list(v) for v in ref_values], rows, inp))
+                m = dict(inp, kind="hist:" + op)
+                if e is not None:
+                    errors[e] += 1
+                    if must:
+                        fail("%s raised %s" % (cls, e), inp, okind)
+                    push("hist:" + op, case, "OErr %s" % nl(ERR.get(e, 9)), dict(m, error=e), hkey, nontrivial=False)
+                    continue
+                try:
+                    rows = to_rows(out)
+                except Exception as ex:
+                    fail("%s returned something that is not a list of rows of numbers: %r" % (cls, ex), inp, okind)
+                    push("hist:" + op, case, "OErr 9", dict(m, error="unreadable"), hkey, nontrivial=False)
+                    continue
+                orc(rows)
+                sizes["hist:%s:%d" % (op, n)] += 1
+                push("hist:" + op, case, rows_lit(rows), dict(m, rows=len(rows)), hkey)
+                if st.get("scramble") and type(out) is list:
+                    # the user overwrites the vectors he got (they are his): a later run must not hand them out again.  Should
+                    # this very object (or its rows) also be a design returned earlier, the change below is the user's own, not a
+                    # later run's: it is dropped from the watch list (a generator handing out a stale object shows up as a wrong design)
+                    rows_ids = set(id(r) for r in out)
+                    kept[:] = [it for it in kept if it[0] is not out and not (type(it[0]) is list and any(id(r) in rows_ids for r in it[0]))]
+                    for r in out:
+                        if type(r) is list:
+                            r[:] = [-12345.0] * len(r)
+                    del out[1:]
+                    hstat["returned designs overwritten by the user afterwards"] += 1
+                else:
+                    kept.append((out, out_snap(out), idx))
+        finally:
+            hstat["session length %d" % ngen] += 1
+            if problem is not None:
+                atexit.unregister(problem.cleanup)
+                shutil.rmtree(problem.working_dir, ignore_errors=True)
+
+    K6 = [dict(op="full", center=False), dict(op="full", center=True), dict(op="full_levels"), dict(op="pb"), dict(op="bb"),
+          dict(op="gsd_gen", reduction=2)]
+    CONFIGS = ["full(center=False)", "full(center=True)", "full_levels", "pb", "bb", "gsd_gen"]
+    TS_BOUNDS = [(-2.5, 5.0), (1.0, 3.4), (6.0, 10.0)]                    # the test-suite problem
+    TS_VALUES = [[1.0, 3.0, 2.0], [6.0, 8.0, 4.0], [0.25, 0.5]]
+
+    def gen_values_h(k):
+        """k level lists for the histories: mostly 2..4 levels (GSD needs >= 2), product of the lengths bounded"""
+        while True:
+            lens = [rng.choice([2, 2, 3, 3, 4]) if rng.random() < 0.93 else 1 for _ in range(k)]
+            p = 1
+            for x in lens:
+                p *= x
+            if p <= 150:
+                break
+        return [[float(x) for x in (rng.sample(GRID, L) if rng.random() < 0.9 else [rng.choice(GRID[:4]) for _ in range(L)])]
+                for L in lens]
+
+    def gen_step():
+        st = dict(rng.choice(K6))
+        if st["op"] == "gsd_gen":
+            st["reduction"] = rng.choice([2, 2, 3])
+        st["reuse"] = rng.random() < 0.7
+        if rng.random() < 0.3:
+            st["reinit"] = True
+        if rng.random() < 0.3:
+            st["scramble"] = True
+        return st
+
+    # every ordered pair of generator configurations (a generator followed by itself included: once on the same object,
+    # once on a new object), on the test-suite problem and on a generated one
+    for i, a in enumerate(K6):
+        for j, b in enumerate(K6):
+            run_session("pair", TS_BOUNDS, TS_VALUES, [dict(a), dict(b, reuse=(a["op"] == b["op"]))],
+                        use_problem=((i * 6 + j) % 9 == 0))
+            k = rng.choice([3, 3, 4, 5])
+            run_session("pair", gen_bounds(rng, k, degenerate=0.05), gen_values_h(k), [dict(a), dict(b, reuse=False, scramble=(rng.random() < 0.3))])
+    # a generator object run again after the user changed what it is given: a bound of the problem (rebound list / item
+    # assignment), the level lists (init with new lists), the centre flag
+    for a in K6:
+        for how in ("rebind", "item"):
+            for rnd in (False, True):
+                k = rng.choice([3, 3, 4]) if rnd else 3
+                bnds = gen_bounds(rng, k, degenerate=0.0) if rnd else TS_BOUNDS
+                vals = gen_values_h(k) if rnd else TS_VALUES
+                if a["op"] in ("full_levels", "gsd_gen"):
+                    change = dict(op="set_values", values=gen_values_h(k if how == "rebind" else max(k - 1, 2)))
+                else:
+                    lo = float(rng.choice(GRID))
+                    change = dict(op="set_bounds", index=rng.randrange(k), how=how, bounds=[lo, lo + rng.choice([0.5, 2.0, 7.5])])
+                steps = [dict(a), change, dict(a, reuse=True)]
+                if a["op"] == "full":
+                    steps.append(dict(a, center=not a["center"], reuse=True))
+                run_session("rerun", bnds, vals, steps)
+    # the three problems of the red-team demonstration: Box-Behnken first, then the others, on one Problem
+    for bnds in ([(-2.5, 5.0), (1.0, 3.4), (6.0, 10.0)], [(0.0, 1.0), (10.0, 20.0), (-4.0, 4.0), (2.0, 3.0), (100.0, 300.0)], [(0.0, 8.0)] * 7):
+        run_session("corpus", bnds, gen_values_h(len(bnds)),
+                    [dict(op="pb"), dict(op="full", center=False), dict(op="bb"), dict(op="pb"), dict(op="full", center=False),
+                     dict(op="bb", reuse=True), dict(op="full", center=len(bnds) < 5, reuse=True), dict(op="pb", reuse=True)],
+                    use_problem=True)
+    # random histories: 2..5 runs over all generator classes, objects reused or new, the user editing bounds / level lists
+    # and overwriting returned vectors in between
+    for s in range(ctx.pick(60, 500)):
+        k = rng.choice([3, 3, 3, 4, 4, 5, 5, 6, 2, 1, 7])
+        steps = []
+        for t in range(rng.randint(2, 5)):
+            if t > 0 and rng.random() < 0.2:
+                a = float(rng.choice(GRID))
+                steps.append(dict(op="set_bounds", index=rng.randrange(k), how=rng.choice(["rebind", "item"]),
+                                  bounds=[a, a + rng.choice([0.5, 1.0, 2.0, 2.4, 7.5])]))
+            if t > 0 and rng.random() < 0.1:
+                steps.append(dict(op="set_values", values=gen_values_h(k if rng.random() < 0.8 else max(k - 1, 1))))
+            st = gen_step()
+            if t > 0 and rng.random() < 0.3:                                 # the generator class used just before, again
+                st["op"] = [x for x in steps if x["op"] in GEN_CLASS][-1]["op"]
+                st.setdefault("center", rng.random() < 0.5)
+                st.setdefault("reduction", rng.choice([2, 3]))
+            if k >= 5 and st["op"] == "full":
+                st["center"] = False
+            steps.append(st)
+        run_session("random", gen_bounds(rng, k, degenerate=0.08), gen_values_h(k), steps, use_problem=(s % 12 == 0))
+
+    # ---- the same at the level of doe.py: one dict of level lists / one list of level counts handed to several functions
+    # What the unchanged functions do to their argument (measured below, reported in the evidence): build_full_fact,
+    # fullfact and build_gsd leave it alone; build_plackett_burman leaves two-element lists alone (longer ones are
+    # overwritten: lst[1] = lst[-1], and the dict entry is rebound to lst[:2]); build_box_behnken leaves three-element lists
+    # alone and turns a two-element list IN PLACE into the sorted [l, mid, u].  The Generator classes shield the
+    # problem from both in-place effects by building fresh [l_b, u_b] lists - which the purity oracle above asserts.
+    effects = Counter()
+
+    def run_doe_session(shape, bounds, steps):
+        ref = [(float(a), float(b)) for a, b in bounds]
+        n = len(ref)
+        if shape == 3:
+            lists = [[a, (a + b) / 2, b] for a, b in ref]                  # sorted: a <= b by construction
+        else:
+            lists = [[a, b] for a, b in ref]
+        ref_lists = [tuple(v) for v in lists]
+        d = {"x_%d" % i: v for i, v in enumerate(lists)}
+        history = []
+        hstat["doe-level sessions"] += 1
+        for idx, op in enumerate(steps):
+            history.append(op)
+            f = {"doe_full": doe.build_full_fact, "doe_pb": doe.build_plackett_burman, "doe_bb": doe.build_box_behnken}[op]
+            before = snap(d)
+            out, e = call(lambda: f(d))
+            after = snap(d)
+            hstat["doe-level runs"] += 1
+            inp = {"function": f.__name__, "history": list(history), "step": idx, "shared": "one dict of level lists",
+                   "level_lists": [list(v) for v in ref_lists]}
+            hkey = ("doe", shape, tuple(history), tuple(ref_lists))
+            in_place = (op == "doe_bb" and shape == 2)
+            if in_place:
+                # today's documented in-place effect; nothing is run on this dict afterwards
+                want = snap({"x_%d" % i: sorted([a, b, (a + b) / 2]) for i, (a, b) in enumerate(ref)})
+                effects["build_box_behnken on two-element lists: caller's lists are afterwards the sorted [l, mid, u]: %s"
+                        % ("yes" if after == want else ("unchanged" if after == before else "other"))] += 1
+            else:
+                dd = snap_diff(before, after, "factor_level_ranges")
+                effects["%s on %d-element lists: argument unchanged: %s" % (f.__name__, shape, "no" if dd else "yes")] += 1
+                if dd:
+                    fail("doe.%s modified the level lists it was given (%s); callers that pass their own lists (FullFactorLevelsGenerator "
+                         "passes the user's) see other levels afterwards" % (f.__name__, dd), inp, "purity")
+            if op == "doe_full":
+                case = "CFullLevels %s %s" % (ll(ref_lists, lambda v: ll(v, fl)), nl(n))
+                must = n >= 1
+                okind, orc = "fullfact_levels", (lambda rows: oracle_full([list(v) for v in ref_lists], rows, inp))
+            elif op == "doe_pb":
+                case = "CPB %s" % bounds_lit(ref)
+                must = 1 <= n <= 23
+                okind, orc = "pb", (lambda rows: oracle_pb(ref, rows, inp))
+            else:
+                case = "CBB %s" % bounds_lit(ref)
+                must = n >= 3
+                okind, orc = "bb", (lambda rows: oracle_bb(ref, rows, inp))
+            m = dict(inp, kind="hist:" + op)
+            if e is not None:
+                errors[e] += 1
+                if must:
+                    fail("doe.%s raised %s" % (f.__name__, e), inp, okind)
+                push("hist:" + op, case, "OErr %s" % nl(ERR.get(e, 9)), dict(m, error=e), hkey, nontrivial=False)
+                continue
+            rows = to_rows(out)
+            orc(rows)
+            push("hist:" + op, case, rows_lit(rows), dict(m, rows=len(rows)), hkey)
+
+    for s in range(ctx.pick(24, 240)):
+        shape = rng.choice([2, 3])
+        k = rng.choice([3, 3, 4, 4, 5, 2, 6]) if shape == 2 else rng.choice([3, 3, 4, 4, 5])
+        if shape == 2:
+            steps = [rng.choice(["doe_full", "doe_pb"]) for _ in range(rng.randint(2, 4))]
+            steps += ["doe_bb"] * rng.choice([0, 0, 1, 2])               # only at the end: it rewrites two-element lists in place
+            bounds = gen_bounds(rng, k, degenerate=0.08)
+        else:
+            steps = [rng.choice(["doe_full", "doe_bb"]) for _ in range(rng.randint(2, 5))]
+            bounds = gen_bounds(rng, k, degenerate=0.0)
+            if rng.random() < 0.2:
+                i = rng.randrange(k)
+                bounds[i] = (bounds[i][0], bounds[i][0])                   # coincident levels
+        run_doe_session(shape, bounds, steps)
+    # one list of level counts handed to fullfact and build_gsd repeatedly
+    for s in range(ctx.pick(16, 160)):
+        k = rng.choice([2, 2, 3, 3, 4])
+        L = [rng.choice([2, 2, 3, 3, 4, 5]) for _ in range(k)]
+        refL = tuple(L)
+        hstat["doe-level sessions"] += 1
+        hsteps = []
+        for t in range(rng.randint(2, 5)):
+            before = snap(L)
+            if rng.random() < 0.4:
+                hsteps.append("fullfact")
+                out, e = call(lambda: doe.fullfact(L))
+                inp = {"function": "fullfact", "levels": list(refL), "history": list(hsteps), "shared": "one list of level counts"}
+                idx_lists = [[float(x) for x in range(c)] for c in refL]
+                case = "CFullLevels %s %s" % (ll(idx_lists, lambda v: ll(v, fl)), nl(k))
+                hkey = ("doe", "fullfact", tuple(hsteps), refL)
+                if e is not None:
+                    errors[e] += 1
+                    fail("doe.fullfact raised %s" % e, inp, "fullfact")
+                    push("hist:fullfact", case, "OErr %s" % nl(ERR.get(e, 9)), dict(inp, kind="hist:fullfact", error=e), hkey, nontrivial=False)
+                else:
+                    rows = to_rows(out)
+                    oracle_full(idx_lists, rows, inp)
+                    push("hist:fullfact", case, rows_lit(rows), dict(inp, kind="hist:fullfact", rows=len(rows)), hkey)
+                name = "fullfact"
+            else:
+                r = rng.choice([2, 2, 3])
+                nn = rng.choice([1, r, r, 2])
+                hsteps.append("build_gsd(r=%d,n=%d)" % (r, nn))
+                do_gsd(refL, r, nn, shared=L, hist={"history": list(hsteps), "shared": "one list of level counts"})
+                name = "build_gsd"
+            hstat["doe-level runs"] += 1
+            dd = snap_diff(before, snap(L), "levels")
+            effects["%s: argument unchanged: %s" % (name, "no" if dd else "yes")] += 1
+            if dd:
+                fail("doe.%s modified the list of level counts it was given (%s)" % (name, dd),
+                     {"function": name, "levels": list(refL), "history": list(hsteps), "shared": "one list of level counts"}, "purity")
+    # the in-place effect of build_plackett_burman on lists that do not have two elements (never reached through the Generator
+    # classes, which pass fresh two-element lists): measured for the record
+    for lst in ([1.0, 2.0, 3.0], [0.5, 0.1, 0.2, 0.9]):
+        dpb = {"a": list(lst), "b": list(lst), "c": list(lst)}
+        keep = dpb["a"]
+        call(lambda: doe.build_plackett_burman(dpb))
+        effects["build_plackett_burman on %d-element lists: caller's list overwritten (lst[1] = lst[-1]) and dict entry rebound to lst[:2]: %s"
+                % (len(lst), "yes" if (keep == [lst[0], lst[-1]] + lst[2:] and dpb["a"] == [lst[0], lst[-1]]) else "no")] += 1
+
     ctx.coq_compare("c13", HEADER, "c13_case", "c13_obs", "c13_run", "c13_obs_eqb", cases, expected, meta, shard=ctx.pick(24, 60))
     ctx.rule = ("generator runs for factor counts 0..8 (Plackett-Burman 0..27 plus a few sizes up to 47, Box-Behnken up to %d), bounds and level "
                 "lists over a value grid with reversed / coincident bounds and repeated level values, reductions 0..8 and 0..r+3 complementary "
-                "designs; a case is non-trivial when the implementation returned a design (rejected sizes are compared too but not counted); "
-                "distinct = distinct (generator, parameters)") % ctx.pick(8, 12)
+                "designs; plus HISTORIES on one shared parameter list / one Problem (every ordered pair of the six generator configurations, "
+                "random sequences of 2..5 runs with generator objects reused or new, user edits of bounds / level lists and overwriting of "
+                "returned vectors in between) and on one dict / list handed repeatedly to the doe.py functions: every run of a history is "
+                "compared with the model on the user's ORIGINAL bounds / levels, and the shared structures must be bit-identical before and "
+                "after every run; a case is non-trivial when the implementation returned a design (rejected sizes are compared too but not "
+                "counted); distinct = distinct (generator, parameters) resp. (history so far, parameters)") % ctx.pick(8, 12)
+    ordered_pairs = sorted("%s -> %s" % ab for ab in adjacent)
     ctx.extra.update({"case_kinds": dict(kinds), "exceptions_compared": dict(errors), "sizes": dict(sorted(sizes.items())),
-                      "rows_compared": sum(m.get("rows", 0) for m in meta)})
+                      "rows_compared": sum(m.get("rows", 0) for m in meta),
+                      "comparisons_sent_to_coq": len(cases),
+                      "histories": dict(sorted(hstat.items())),
+                      "ordered_pairs_of_generator_configurations_seen_adjacent": "%d of 36" % len(adjacent),
+                      "ordered_pairs_missing": sorted("%s -> %s" % (a, b) for a in CONFIGS for b in CONFIGS if (a, b) not in adjacent),
+                      "doe_argument_effects_observed": dict(sorted(effects.items()))})
 
 
 LEVEL_TEXT = ("Machine-checked Coq theorems over an executable model of fullfact/construct_df, pbdesign, bbdesign and build_gsd with its "
@@ -389,6 +877,15 @@ LEVEL_TEXT = ("Machine-checked Coq theorems over an executable model of fullfact
               "list of level counts >= 2 (induction over the column-augmentation loop, no size bound) the complementary generalized subset "
               "designs are duplicate-free, pairwise disjoint subsets of the full factorial and the r of them cover it, whenever build_gsd "
               "does not raise (it provably does not for >= 2 factors with r <= every level count). The model is tied to the Generator "
-              "classes and doe.build_gsd on every run by comparing complete row lists, in order, for generated parameter sets.")
+              "classes and doe.build_gsd on every run by comparing complete row lists, in order, for generated parameter sets - single runs "
+              "on fresh parameters and histories of runs on one shared parameter list / one Problem, each run compared with the model on "
+              "the user's original bounds and levels, with a purity oracle on the shared structures.")
 LEVEL_NOTE = ("Full (no partial theorem). Trusted: Coq kernel + vm_compute; the hand-written model and the Python harness. Correspondence is "
-              "sampled (corpus + generated cases); the theorems are unbounded except pb_structure, whose bound 1..23 is the property's own.")
+              "sampled (corpus + generated cases); the theorems are unbounded except pb_structure, whose bound 1..23 is the property's own. "
+              "The model's designs are functions of immutable inputs (lists of level values), so in the model a run cannot influence a later "
+              "run, nor change the problem, by construction; that the code behaves like that - generate() leaves the parameter dicts, bounds "
+              "lists and level lists bit-identical, and every run of a sequence on one parameter list equals the model on the original "
+              "bounds - is not a theorem but is checked on every run of the check by the history correspondence and the purity oracle "
+              "(sampled: all ordered pairs of generator configurations plus random sequences of 2..5 runs). doe.build_box_behnken and "
+              "doe.build_plackett_burman do rewrite caller-supplied lists in place (two-element resp. non-two-element lists); the Generator "
+              "classes shield the problem by passing fresh lists, which is what the purity oracle asserts.")
